@@ -40,15 +40,30 @@ NewObj(key, spell) == [key |-> key, spell |-> spell, plbl |-> None, flbl |-> Non
 Has(objs, key) == \E i \in 1..Len(objs) : objs[i].key = key
 IdxOf(objs, key) == CHOOSE i \in 1..Len(objs) : objs[i].key = key
 
-RECURSIVE EnsureFrom(_, _, _)
-EnsureFrom(objs, p, n) ==
+SetAttrO(o, a, v) == IF a = "label" THEN [o EXCEPT !.flbl = v, !.lblLast = "f"]
+                     ELSE IF a = "shape" THEN [o EXCEPT !.shape = v]
+                     ELSE [o EXCEPT !.attrs[a] = v]
+
+\* ---- globs (C12): a standing rule [scope, pat, a, v] acts like declaring `a: v` on every object of its
+\* scope whose name matches: "*" one level, "**" every level, other patterns per the alphabet's match table
+PatNames(pat) == {Alphabet.match[pat][k] : k \in 1..Len(Alphabet.match[pat])}
+RuleApplies(r, key) ==
+  IF r.pat = "**" THEN IsPrefixSeq(r.scope, key) /\ Len(key) > Len(r.scope)
+  ELSE Len(key) = Len(r.scope) + 1 /\ IsPrefixSeq(r.scope, key) /\ (r.pat = "*" \/ Last(key) \in PatNames(r.pat))
+RECURSIVE ApplyRules(_, _, _)
+ApplyRules(o, rules, n) == IF n > Len(rules) THEN o
+                           ELSE ApplyRules(IF RuleApplies(rules[n], o.key) THEN SetAttrO(o, rules[n].a, rules[n].v) ELSE o, rules, n + 1)
+
+RECURSIVE EnsureFrom(_, _, _, _)
+EnsureFrom(objs, p, n, rules) ==
   IF n > Len(p) THEN objs
   ELSE LET key == FoldPath(SubSeq(p, 1, n)) IN
-       IF Has(objs, key) THEN EnsureFrom(objs, p, n + 1)
+       IF Has(objs, key) THEN EnsureFrom(objs, p, n + 1, rules)
        ELSE LET ps == IF n = 1 THEN <<>> ELSE objs[IdxOf(objs, FoldPath(SubSeq(p, 1, n - 1)))].spell
-            IN EnsureFrom(Append(objs, NewObj(key, Append(ps, p[n]))), p, n + 1)
+            \* a target created later gets every standing rule at the moment it is created, in rule order
+            IN EnsureFrom(Append(objs, ApplyRules(NewObj(key, Append(ps, p[n])), rules, 1)), p, n + 1, rules)
 \* ensureField: every container on the path is created, in order, keeping the first spelling
-Ensure(objs, p) == EnsureFrom(objs, p, 1)
+EnsureR(objs, p, rules) == EnsureFrom(objs, p, 1, rules)
 
 Bundle(e) == <<e.s, e.d, e.sa, e.da>>
 InBundle(edges, b) == {j \in 1..Len(edges) : Bundle(edges[j]) = b}
@@ -61,23 +76,20 @@ SetObj(objs, key, f(_)) == [objs EXCEPT ![IdxOf(objs, key)] = f(@)]
 RemoveIdx(q, S) == LET keep == {j \in 1..Len(q) : j \notin S}
                    IN [n \in 1..Cardinality(keep) |-> q[CHOOSE j \in keep : Cardinality({k \in keep : k < j}) = n - 1]]
 
-Empty == [objs |-> <<>>, edges |-> <<>>, err |-> FALSE, dirty |-> {}]
+Empty == [objs |-> <<>>, edges |-> <<>>, err |-> FALSE, dirty |-> {}, rules |-> <<>>]
 
 Matches(edges, b, i) == MatchesR(edges, b, i, IndexRule)
 
 ApplyR(s, d, irule) ==
   IF s.err THEN s ELSE
   CASE d.k = "obj" ->
-         LET o1 == Ensure(s.objs, d.p) key == FoldPath(d.p)
+         LET o1 == EnsureR(s.objs, d.p, s.rules) key == FoldPath(d.p)
          IN [s EXCEPT !.objs = IF d.v = "" THEN o1 ELSE SetObj(o1, key, LAMBDA o : [o EXCEPT !.plbl = d.v, !.lblLast = "p"])]
     [] d.k = "attr" ->
-         LET o1 == Ensure(s.objs, d.p) key == FoldPath(d.p)
-         IN [s EXCEPT !.objs = SetObj(o1, key, LAMBDA o :
-               IF d.a = "label" THEN [o EXCEPT !.flbl = d.v, !.lblLast = "f"]
-               ELSE IF d.a = "shape" THEN [o EXCEPT !.shape = d.v]
-               ELSE [o EXCEPT !.attrs[d.a] = d.v])]
+         LET o1 == EnsureR(s.objs, d.p, s.rules) key == FoldPath(d.p)
+         IN [s EXCEPT !.objs = SetObj(o1, key, LAMBDA o : SetAttrO(o, d.a, d.v))]
     [] d.k = "anull" ->
-         LET o1 == Ensure(s.objs, d.p) key == FoldPath(d.p)
+         LET o1 == EnsureR(s.objs, d.p, s.rules) key == FoldPath(d.p)
          IN [s EXCEPT !.objs = SetObj(o1, key, LAMBDA o :
                IF d.a = "label" THEN [o EXCEPT !.flbl = None, !.lblLast = IF o.plbl = None THEN "n" ELSE "p"]
                ELSE IF d.a = "shape" THEN [o EXCEPT !.shape = None]
@@ -89,9 +101,9 @@ ApplyR(s, d, irule) ==
               IN [s EXCEPT !.objs = RemoveIdx(s.objs, {j \in 1..Len(s.objs) : IsPrefixSeq(key, s.objs[j].key)}),
                            !.edges = RemoveIdx(s.edges, goneE),
                            !.dirty = @ \cup {Bundle(s.edges[j]) : j \in goneE}]
-         ELSE [s EXCEPT !.objs = Ensure(s.objs, Front(d.p))]          \* DEVIATION-1
+         ELSE [s EXCEPT !.objs = EnsureR(s.objs, Front(d.p), s.rules)]          \* DEVIATION-1
     [] d.k = "edge" ->
-         LET o1 == Ensure(Ensure(s.objs, d.s), d.d)
+         LET o1 == EnsureR(EnsureR(s.objs, d.s, s.rules), d.d, s.rules)
              e == [s |-> FoldPath(d.s), d |-> FoldPath(d.d), sa |-> d.sa, da |-> d.da, label |-> IF d.v = "" THEN None ELSE d.v,
                    attrs |-> [a \in StyleAttrs |-> None], sid |-> 0]
              inb == InBundle(s.edges, Bundle(e))
@@ -109,6 +121,11 @@ ApplyR(s, d, irule) ==
          LET b == <<FoldPath(d.s), FoldPath(d.d), d.sa, d.da>> m == MatchesR(s.edges, b, d.i, irule) IN
          IF m = {} THEN s
          ELSE [s EXCEPT !.edges = RemoveIdx(s.edges, m), !.dirty = @ \cup {b}]
+    [] d.k = "glob" ->
+         LET r == [scope |-> FoldPath(d.p), pat |-> d.pat, a |-> d.a, v |-> d.v]
+             o1 == EnsureR(s.objs, d.p, s.rules)                       \* the scope's containers are created like any key
+         IN [s EXCEPT !.objs = [i \in 1..Len(o1) |-> IF RuleApplies(r, o1[i].key) THEN SetAttrO(o1[i], r.a, r.v) ELSE o1[i]],
+                      !.rules = Append(s.rules, r)]
     [] OTHER -> s
 
 Apply(s, d) == ApplyR(s, d, IndexRule)
@@ -154,6 +171,22 @@ LastWriterWins == [][\A i \in 1..NDecls : (prog' = Append(prog, i) /\ ~st'.err) 
 \* a re-created object starts afresh
 FreshAfterNull == [][\A i \in 1..NDecls : (prog' = Append(prog, i) /\ Decls[i].k = "obj" /\ Decls[i].v = "" /\ ~Has(st.objs, FoldPath(Decls[i].p)) /\ ~st'.err) =>
      LET o == st'.objs[IdxOf(st'.objs, FoldPath(Decls[i].p))] IN o.shape = None /\ o.flbl = None /\ o.plbl = None /\ \A a \in StyleAttrs : o.attrs[a] = None]_<<st, prog>>
+\* C12: a glob acts on every matching object that exists now ...
+AttrOf(o, a) == IF a = "label" THEN o.flbl ELSE IF a = "shape" THEN o.shape ELSE o.attrs[a]
+GlobNow == [][\A i \in 1..NDecls : (prog' = Append(prog, i) /\ Decls[i].k = "glob" /\ ~st'.err) =>
+     LET d == Decls[i] r == [scope |-> FoldPath(d.p), pat |-> d.pat, a |-> d.a, v |-> d.v] IN
+       /\ \A j \in 1..Len(st'.objs) : RuleApplies(r, st'.objs[j].key) => AttrOf(st'.objs[j], d.a) = d.v
+       /\ \A j \in 1..Len(st'.objs) : (~RuleApplies(r, st'.objs[j].key) /\ Has(st.objs, st'.objs[j].key)) =>
+              AttrOf(st'.objs[j], d.a) = AttrOf(st.objs[IdxOf(st.objs, st'.objs[j].key)], d.a)]_<<st, prog>>
+\* ... and on every matching object created later, at the moment it is created; the creating declaration's own value then wins
+GlobLater == [][\A i \in 1..NDecls : (prog' = Append(prog, i) /\ ~st'.err) =>
+     \A j \in 1..Len(st'.objs) : ~Has(st.objs, st'.objs[j].key) =>
+       \A a \in StyleAttrs \cup {"label", "shape"} :
+         LET key == st'.objs[j].key
+             ms == {n \in 1..Len(st.rules) : RuleApplies(st.rules[n], key) /\ st.rules[n].a = a}
+             own == Decls[i].k \in {"attr", "glob"} /\ Decls[i].a = a
+         IN (ms # {} /\ ~own) => AttrOf(st'.objs[j], a) = st.rules[CHOOSE n \in ms : \A m \in ms : m <= n].v]_<<st, prog>>
+
 \* C11: an indexed reference changes exactly one connection or is an error
 IndexedRefHitsOne == [][\A i \in 1..NDecls : (prog' = Append(prog, i) /\ Decls[i].k = "eref") =>
      \/ st'.err
